@@ -295,6 +295,17 @@ def main(argv=None):
     do_shrink = True if tier == "thorough" else getattr(mod, "SHRINK_IN_QUICK", True)
     tasks = [("hyp", modname, tier, seed, s, n, do_shrink, a.collect) for s in range(shards)]
     exhaustive = False
+    # committed regression corpus (shrunk failures of earlier defects / seeded changes): always replayed
+    cdir = os.path.join(VERIF, "corpus", pid)
+    corpus = []
+    if os.path.isdir(cdir):
+        for fn in sorted(os.listdir(cdir)):
+            if fn.endswith(".json"):
+                d = json.load(open(os.path.join(cdir, fn)))
+                corpus.append(d["case"] if isinstance(d, dict) and "case" in d and "property" in d else d)
+    for i in range(0, len(corpus), 4):
+        tasks.append(("enum", modname, corpus[i:i + 4], a.collect))
+    ncorpus = len(corpus)
     if hasattr(mod, "enumerated"):
         cases = list(mod.enumerated(tier, seed))
         if cases:
@@ -361,7 +372,8 @@ def main(argv=None):
                 "class_histogram": dict(sorted(classes.items())),
                 "inconclusive": inconclusive,
                 "hypothesis_shards": shards, "examples_per_shard": n,
-                "enumerated_cases": sum(len(t[2]) for t in tasks if t[0] == "enum"),
+                "enumerated_cases": sum(len(t[2]) for t in tasks if t[0] == "enum") - ncorpus,
+                "regression_corpus_cases": ncorpus,
                 "exhaustive": exhaustive,
                 "numeric_notes_min_max_count": notes,
                 "known_findings_matched": known,
